@@ -163,10 +163,9 @@ def run(ctx, rep) -> None:
         one = len(pi.seq) == 1 and pi.seq[0].kind == "TXN"
         a = atoms(pi.seq[0]) if pi.seq else ()
         stores = any(e.kind == "store_stage" for c_ in pi.seq for e in c_.effects)
-        if not stores:
-            # a jump that changes nothing (source no longer RUNNING / not found): the message is consumed, mark only (justified in C05.R6)
-            ok = one and "mark" in a and not any(x.startswith("push:") for x in a)
-            rep.check(ok, "C15.R4", f"jump path {pi.shape}", "no stage is changed: the message is only marked processed", pi.where()[0], pi.where()[1], disc=pi.shape)
+        if not stores and one and "mark" in a and not any(x.startswith("push:") for x in a):
+            # a jump that changes nothing (source no longer RUNNING): the message is consumed, mark only (justified in C05.R6)
+            rep.ok("C15.R4", f"jump path {pi.shape}", "no stage is changed: the message is only marked processed", pi.where()[0], pi.where()[1])
             continue
         ok = one and "mark" in a and (any(x.startswith("push:") for x in a))
         rep.check(ok, "C15.R4", f"jump path {pi.shape}", "one transaction with the mark and the follow-up message", pi.where()[0], pi.where()[1], disc=pi.shape)
